@@ -953,7 +953,7 @@ func c15AgentSession(ev *vlib.Evidence, bin string, session int) {
 
 func TestC15(t *testing.T) {
 	ev := vlib.NewEvidence("C15", "exploration",
-		"(0) valid traffic through the fan-out paths of the built pool: a client is cut off for low balance while 0..all of the hosts it reports have already closed their connection - the keep-alive must still be answered; (1) in-process behind recover: well-formed JSON-RPC requests generated per registered endpoint (wrong/right arity, hostile leaves, garbage signatures and identities, and correctly signed requests with hostile parameter values: node URIs, kinds, peer descriptions, counts, wallets) through Server.Handle on the pool+payment+status and agent registrations, plus the pure parsers; every reply must carry the id and a result or error; (2) child processes: the built `vipnode pool` (memory; thorough: persist, race build) fed in batches over WebSocket and HTTP with the same requests (replies collected and checked, same-connection canary), byte/shape garbage, unsolicited/duplicate/empty replies, and a harness playing a malicious host that answers the pool's whitelist call with hostile replies; after every batch a canary on another connection and over HTTP must be answered; every input is logged before it is sent, crashes are keyed by panic message + first repository frames and the child restarted; (3) the built `vipnode agent` connected to a harness playing a malicious pool (8 reply modes); non-trivial = every batch/request; distinct = (target, class, size bucket)")
+		"(0) valid traffic through the fan-out paths of the built pool: a client is cut off for low balance while 0..all of the hosts it reports have already closed their connection - the keep-alive must still be answered; (1) in-process behind recover: well-formed JSON-RPC requests generated per registered endpoint (wrong/right arity, hostile leaves, garbage signatures and identities, and correctly signed requests with hostile parameter values: node URIs, kinds, peer descriptions, counts, wallets) through Server.Handle on the pool+payment+status and agent registrations, plus the pure parsers; every reply must carry the id and a result or error; (2) child processes: the built `vipnode pool` (memory; thorough: persist, race build) fed in batches over WebSocket and HTTP with the same requests (replies collected and checked, same-connection canary), byte/shape garbage, unsolicited/duplicate/empty replies, and a harness playing a malicious host that answers the pool's whitelist call with hostile replies; after every batch a canary on another connection and over HTTP must be answered; every input is logged before it is sent, crashes are keyed by panic message + first repository frames and the child restarted; (3) the built `vipnode agent` connected to a harness playing a malicious pool (8 reply modes); non-trivial = every batch/request; distinct = (target, class, size bucket); (faults) pool_status while store reads and the deposit lookup fail in turn")
 	for _, driver := range vlib.Drivers() {
 		c15InProcessSupervised(ev, driver, vlib.Scale(6000, 100000))
 	}
